@@ -42,10 +42,13 @@ def qn(name):
 
 TYPE_CELLS = ["text", "integer", "decimal", "date", "time", "dateTime", "note", "select_one c", "select_multiple c",
               "rank c", "geopoint", "geotrace", "image", "audio", "file", "barcode", "calculate", "hidden",
-              "acknowledge", "range", "start", "end", "today", "deviceid", "username", "email", "phonenumber"]
+              "acknowledge", "range", "start", "end", "today", "deviceid", "username", "email", "phonenumber",
+              "background-audio", "begin group", "begin repeat"]
+CONTAINER_COLS = {"relevant", "read_only", "required", "custom"}  # logic cells that make sense on a group / repeat row
 PARAM = {"image": ("max-pixels=640", {"orx:max-pixels": "640"}), "audio": ("quality=low", {"odk:quality": "low"}),
          "geopoint": ("allow-mock-accuracy=true", {"odk:allow-mock-accuracy": "true"}),
-         "range": ("start=0.5 end=2 step=0.5", {"type": "decimal"})}
+         "range": ("start=0.5 end=2 step=0.5", {"type": "decimal"}),
+         "background-audio": ("quality=low", {})}  # the quality of a background recording belongs to its action, not its bind
 # further parameter spellings per type (index 0 is PARAM[type]): decimal anywhere among start/end/step makes a range decimal
 PARAM_MORE = {"range": [("start=0.5 end=9.5 step=1", {"type": "decimal"}), ("step=0.5", {"type": "decimal"}), ("start=1 end=5 step=1", {}),
                         ("end=2.5", {"type": "decimal"}), ("start=1.5 end=5", {"type": "decimal"}), ("step=2 start=0.5", {"type": "decimal"})],
@@ -92,6 +95,10 @@ def expand(block, tier):
     for r in range(0, kmax + 1):
         for sub in itertools.combinations(KEYS, r):
             if "param" in sub and ty.split()[0] not in PARAM:
+                continue
+            if ty.startswith("begin") and not set(sub) <= CONTAINER_COLS:
+                continue
+            if ty == "background-audio" and set(sub) & {"constraint", "constraint_message", "cmsg_fr", "required_message", "noapp", "calculation"}:
                 continue
             for vi in range(len(VALS)):
                 ais = (vi % 2,) if tier == "quick" else (0, 1)
@@ -148,18 +155,27 @@ def build(case):
         if c == "constraint_message" and hdr != "constraint_message":
             after[hdr] = after.pop("constraint_message")
     ctx = case["ctx"]
+    mid = [row]
+    if ty.startswith("begin"):
+        mid = [row, {"type": "text", "name": "inner", "label": "I"}, {"type": "end " + ty.split()[1]}]
+    elif ty == "background-audio":
+        row.pop("label", None)
     if ctx == "top":
-        rows = [other, row, after]
+        rows = [other, *mid, after]
     else:
         kind = "group" if ctx == "group" else "repeat"
-        rows = [{"type": f"begin {kind}", "name": "w", "label": "W"}, other, row, after, {"type": f"end {kind}"}]
+        rows = [{"type": f"begin {kind}", "name": "w", "label": "W"}, other, *mid, after, {"type": f"end {kind}"}]
     return {"survey": rows, "choices": [dict(c) for c in CHOICES]}, cells
 
 
 def expected_bind(case, cells):
     ty = TYPE_CELLS[case["ty"]]
     base = ty.split()[0]
-    if base in ("select_one", "select_multiple"):
+    if ty.startswith("begin"):
+        e = {}
+    elif base == "background-audio":
+        e = {"type": "binary"}
+    elif base in ("select_one", "select_multiple"):
         e = {"type": "string"}
     elif base == "rank":
         e = {"type": "odk:rank"}
@@ -205,6 +221,11 @@ def check_one(case):
 
     def compare(name, exp, who):
         bs = bm.get(f"{base}/{name}", [])
+        if not exp and who == "own":
+            # a group / repeat row without logic cells gets no bind at all
+            if bs:
+                viol.append(("container-without-logic-has-bind", str([dict(b.attrib) for b in bs])))
+            return
         if len(bs) != 1:
             viol.append((f"bind-count:{who}", f"{len(bs)} binds for {base}/{name}"))
             return
@@ -260,6 +281,12 @@ def check_one(case):
                 viol.append((f"bind-attribute-value:{who}:{lk}", f"got {g!r} want {w!r} type={tyname}"))
 
     compare("t", expected_bind(case, cells), "own")
+    if tyname == "background-audio":
+        # the recording action carries its own parameters and none of the row's logic cells
+        acts = [el for el in obs.model if O.local(el.tag) == "recordaudio" and el.get("ref") == f"{base}/t"]
+        want_a = {"ref", "event"} | ({qn("odk:quality")} if "param" in case["cols"] else set())
+        if len(acts) != 1 or set(acts[0].attrib) != want_a:
+            viol.append(("background-audio-action-attributes", f"{[dict(a.attrib) for a in acts]} want keys {sorted(want_a)}"))
     compare("o", {"type": "int", "relevant": "1=1"}, "before")
     compare("n2", {"type": "string", "constraint": ". != 'z'", "jr:constraintMsg": "cm2"}, "after")
     if case["ctx"] != "top" and bm.get("/data/w"):
